@@ -74,4 +74,6 @@ def run(chk, prog):
     take(chk, prog, "C11", lambda o: o["rule"] == "REQ-DISPATCH", "index-edit dispatch obligations (from C11)", 1)
     # the backward proposal term is scored at the OLD values, which Rejuvenate reads from the discard of the inner Update: the discard obligations of the
     # distributions (BWD-OLDVALUES, shared with C05 / C06)
+    # the forward proposal score is proposal.propose(...)'s score: the derived method, defined once as the score of one simulate (C38's rules on it)
+    take(chk, prog, "C38", lambda o: o["instance"] in ("GenerativeFunction.propose", "GenerativeFunction/derived-methods"), "propose is the inherited derived method (from C38)", 2)
     take(chk, prog, "C05", lambda o: o["rule"] == "BWD-OLDVALUES" and o["instance"].startswith("Distribution."), "discard obligations of Distribution edits (from C05)", 2)
